@@ -249,7 +249,7 @@ theorem fix_decided (p e e2 t : Text) (h : fixEncoding p e false = some t) :
 /-- what `encStep` does once the encoding `e` and the (header-fixed) text `t` are known: look the
 codec up, fix once more for `utf-8-sig`, start the inner encoder -/
 def encStart (I : Inner) (e : Text) (t : Text) (final : Bool) : Except CErr (Bytes × EncSt I) :=
-  if e == ofStr "css" then .error .value
+  if isCss e then .error .value
   else if !I.known e then .error .lookup
   else
     let t' := if isUtf8Sig e then (fixEncoding t utf8 true).getD t else t
@@ -320,9 +320,9 @@ theorem encStart_merge (I : Inner) (law : EncLaw I) (e t b : Text) (f : Bool)
        | .error err => .error err
        | .ok (o2, s2) => .ok (o1 ++ o2, s2)) = encStart I e (t ++ b) f := by
   unfold encStart
-  by_cases hcss : (e == ofStr "css") = true
+  by_cases hcss : (isCss e) = true
   · simp only [hcss, if_true]
-  · have hcss' : (e == ofStr "css") = false := bool_false_of_not_true hcss
+  · have hcss' : (isCss e) = false := bool_false_of_not_true hcss
     simp only [hcss', Bool.false_eq_true, if_false]
     by_cases hk : I.known e = true
     · simp only [hk, Bool.not_true, Bool.false_eq_true, if_false]
@@ -441,14 +441,14 @@ theorem encFeed_eq (I : Inner) (law : EncLaw I) :
 /-- the tail of the one-shot `encode`, once the encoding and the text are settled -/
 theorem encStart_oneshot (I : Inner) (e t : Text) :
     (encStart I e t true).map (·.1) =
-      (if e == ofStr "css" then .error .value
+      (if isCss e then .error .value
        else if !I.known e then .error .lookup
        else match I.encodeAll e (if isUtf8Sig e then (fixEncoding t utf8 true).getD t else t) with
          | none => .error .unicode | some b => .ok b) := by
   unfold encStart Inner.encodeAll
-  by_cases hcss : (e == ofStr "css") = true
+  by_cases hcss : (isCss e) = true
   · simp only [hcss, if_true]; rfl
-  · have hcss' : (e == ofStr "css") = false := bool_false_of_not_true hcss
+  · have hcss' : (isCss e) = false := bool_false_of_not_true hcss
     simp only [hcss', Bool.false_eq_true, if_false]
     by_cases hk : I.known e = true
     · simp only [hk, Bool.not_true, Bool.false_eq_true, if_false]
@@ -511,9 +511,9 @@ theorem encode_decode (I : Inner)
     decode I b (some e) true = .ok ((fixEncoding t e true).getD t) := by
   unfold encode at h
   simp only at h
-  by_cases hcss : (e == ofStr "css") = true
+  by_cases hcss : (isCss e) = true
   · simp [hcss] at h
-  · have hcss' : (e == ofStr "css") = false := bool_false_of_not_true hcss
+  · have hcss' : (isCss e) = false := bool_false_of_not_true hcss
     simp only [hcss', Bool.false_eq_true, if_false] at h
     by_cases hk : I.known e = true
     · simp only [hk, Bool.not_true, Bool.false_eq_true, if_false] at h
